@@ -755,7 +755,7 @@ def eval_sys_read(klong):
         f.at_eof = True
         return None
     else:
-        i,a = kg_read_array(r, 0, klong._backend, module=klong.current_module(), read_neg=True)
+        i,a = kg_read_array(r, 0, klong._backend, data=True, module=klong.current_module(), read_neg=True)
         f.raw.seek(k+i,0)
         return a
 
@@ -804,7 +804,7 @@ def eval_sys_read_string(klong, x):
         forms.
 
     """
-    _, a = kg_read_array(x, 0, klong._backend, module=klong.current_module(), read_neg=True)
+    _, a = kg_read_array(x, 0, klong._backend, data=True, module=klong.current_module(), read_neg=True)
     return a
 
 
